@@ -395,7 +395,11 @@ func execCase(ops []string) (out []string) {
 		mut := func(f func() string) {
 			guard(line, func() string {
 				w.st.reset(crash, snapTo)
+				if fl, ok := a["fault"]; ok {
+					fmt.Sscanf(fl, "%d", &w.st.flt)
+				}
 				cls := f()
+				w.st.flt = 0
 				obs := fmt.Sprintf("%s ntx=%d", cls, w.st.ntx)
 				if crash >= 0 {
 					if !w.st.done { // fewer transactions than k: the request completed before the crash
